@@ -106,3 +106,11 @@ Theorem C08_roundtrip_table :
   (forall f, status_of f <> G_OK).
 Proof. exact roundtrip_table. Qed.
 Print Assumptions C08_roundtrip_table.
+
+(* the store's watcher registry (idWatchers): a watcher that leaves unregisters only itself, so a second
+   watcher of the request's transaction coming and going does not change what the handler is sent *)
+Theorem C08_second_watcher_leaves : forall (r : list (str * list nat)) t2 w2 t1 w1,
+  w1 <> w2 ->
+  (In w1 (watchers_of eqb_str (unregister eqb_str Nat.eqb r t2 w2) t1) <-> In w1 (watchers_of eqb_str r t1)).
+Proof. exact second_watcher_leaves. Qed.
+Print Assumptions C08_second_watcher_leaves.
